@@ -74,6 +74,9 @@ type vfE2Conn struct {
 	nMsg    uint64
 	newMsgs []vfE2Msg
 	out     int // harness-side outstanding count (sent - answered - timed out)
+	nFin    uint64
+	nReq    uint64
+	skew    bool // counters deliberately skewed by a hook schedule
 }
 
 type vfE2Chan struct {
@@ -613,6 +616,15 @@ func (h *vfE2H) dumpLine(ch *vfE2Chan) string {
 		if infl < 0 {
 			h.fail("negative", "client k%d in_flight_count = %d", h.byCID[c.ID], infl)
 		}
+		// direct oracle (C13.3 / C03.6): the counters are what this consumer did, by the harness's own books
+		if cn := h.conns[h.byCID[c.ID]]; cn != nil && !cn.skew && cn.cl == c {
+			if infl != int64(cn.out) || atomic.LoadUint64(&c.MessageCount) != cn.nMsg || atomic.LoadUint64(&c.FinishCount) != cn.nFin ||
+				atomic.LoadUint64(&c.RequeueCount) != cn.nReq || atomic.LoadInt64(&c.ReadyCount) != cn.rdy {
+				h.fail("client-count", "client k%d reports rdy=%d in_flight=%d msgs=%d fin=%d req=%d; it set RDY %d, holds %d, received %d, finished %d, requeued %d",
+					cn.k, atomic.LoadInt64(&c.ReadyCount), infl, atomic.LoadUint64(&c.MessageCount), atomic.LoadUint64(&c.FinishCount),
+					atomic.LoadUint64(&c.RequeueCount), cn.rdy, cn.out, cn.nMsg, cn.nFin, cn.nReq)
+			}
+		}
 		cls = append(cls, fmt.Sprintf("%d:%d:%d:%d:%d:%d:%s", h.byCID[c.ID], atomic.LoadInt64(&c.ReadyCount), infl,
 			atomic.LoadUint64(&c.MessageCount), atomic.LoadUint64(&c.FinishCount), atomic.LoadUint64(&c.RequeueCount),
 			vfE2B(atomic.LoadInt32(&c.State) == stateClosing)))
@@ -791,6 +803,30 @@ func (h *vfE2H) quiescent() (bool, string) {
 	return true, ""
 }
 
+var vfE2StackBuf = make([]byte, 4<<20)
+
+// pumpsIdle: every topic pump and delivery pump is parked in its select —
+// the one thing the counters cannot show (a goroutine between two of the checked points).
+func vfE2PumpsIdle() (bool, string) {
+	n := runtime.Stack(vfE2StackBuf, true)
+	for _, g := range bytes.Split(vfE2StackBuf[:n], []byte("\n\n")) {
+		// (the disk queue's ioLoop is not looked at: Depth() itself wakes it up)
+		if bytes.Contains(g, []byte(").messagePump(")) {
+			nl := bytes.IndexByte(g, '\n')
+			if nl < 0 {
+				nl = len(g)
+			}
+			if !bytes.Contains(g[:nl], []byte("[select")) {
+				if len(g) > 700 {
+					g = g[:700]
+				}
+				return false, "a pump is running: " + strings.ReplaceAll(string(g), "\n", " | ")
+			}
+		}
+	}
+	return true, ""
+}
+
 func (h *vfE2H) settle() bool {
 	deadline := time.Now().Add(8 * time.Second)
 	stable := 0
@@ -802,17 +838,36 @@ func (h *vfE2H) settle() bool {
 			}
 		}
 		ok, w := h.quiescent()
+		if ok && stable >= 2 {
+			ok, w = vfE2PumpsIdle()
+		}
 		if ok {
 			stable++
-			if stable >= 2 {
+			if stable >= 3 {
 				return true
 			}
+			// let a goroutine caught between two of the checked points move on
+			for t0 := time.Now(); time.Since(t0) < 40*time.Microsecond; {
+				runtime.Gosched()
+			}
+			continue
 		} else {
 			stable = 0
 			why = w
 		}
 		if time.Now().After(deadline) {
-			h.fail("settle", "no quiescence within 8s: %s", why)
+			key := "settle"
+			switch {
+			case strings.Contains(why, "message_count"):
+				key = "settle-count"
+			case strings.Contains(why, "the ledger says"):
+				key = "settle-ledger"
+			case strings.Contains(why, "with a ready consumer"), strings.Contains(why, "with the pump enabled"):
+				key = "settle-stall"
+			case strings.Contains(why, "publishes pending"):
+				key = "settle-pausedpump"
+			}
+			h.fail(key, "no quiescence within 8s: %s", why)
 			h.aborted = true
 			return false
 		}
